@@ -387,6 +387,11 @@ bool SessionManager::send(const PeerId& peer_id, std::span<const std::uint8_t> p
 
     std::copy(ciphertext.begin(), ciphertext.end(), buffer.begin() + kNonceSize + kLengthFieldSize);
 
+    // send() is called from several threads for the same peer (message handlers reply on the
+    // receive thread while the owner announces or requests). A frame that does not fit the
+    // socket buffer is written in pieces; without this lock the pieces of two frames interleave
+    // on the stream and the peer reads a garbage header.
+    std::scoped_lock send_lock(session->send_mutex);
     return send_all(session->socket, buffer.data(), buffer.size());
 }
 
